@@ -3,12 +3,13 @@
 # Confirms a seeded property-breaking change (baseline tests still pass, demo passes clean / fails patched), runs the
 # quick check(s) against it in the scratch worktree /tmp/wt_main and files it under /verif/seeded/<seedname>/.
 PROP=$1; SRC=$2; NAME=$3; shift 3; EXTRA="$@"
-WT=/tmp/wt_main
+WT=${WT:-/tmp/wt_main}
+TAG=$(basename $WT)
 [ -d $WT ] || git -C /repo worktree add --detach $WT >/dev/null 2>&1
 git -C $WT checkout -q -- . ; git -C $WT clean -fdq; git -C $WT reset -q --hard "$(git -C /repo rev-parse HEAD)"
-echo "== demo on clean tree"; (cd /tmp && PYTHONPATH=/repo/src timeout 300 /venv/bin/python $SRC/demo.py >/tmp/demo_clean.out 2>&1); RC_CLEAN=$?; tail -2 /tmp/demo_clean.out
+echo "== demo on clean tree"; (cd /tmp && PYTHONPATH=/repo/src timeout 300 /venv/bin/python $SRC/demo.py >/tmp/demo_clean_$TAG.out 2>&1); RC_CLEAN=$?; tail -2 /tmp/demo_clean_$TAG.out
 if ! git -C $WT apply $SRC/patch.diff; then echo "PATCH DOES NOT APPLY"; exit 3; fi
-echo "== demo on patched tree"; (cd /tmp && PYTHONPATH=$WT/src timeout 300 /venv/bin/python $SRC/demo.py >/tmp/demo_patched.out 2>&1); RC_PATCHED=$?; tail -3 /tmp/demo_patched.out
+echo "== demo on patched tree"; (cd /tmp && PYTHONPATH=$WT/src timeout 300 /venv/bin/python $SRC/demo.py >/tmp/demo_patched_$TAG.out 2>&1); RC_PATCHED=$?; tail -3 /tmp/demo_patched_$TAG.out
 echo "== baseline tests on patched tree"; /verif/tools/run_baseline.py $WT | tail -3; RC_BASE=${PIPESTATUS[0]}
 DETECTED=""
 for P in $PROP $EXTRA; do
